@@ -3,6 +3,9 @@
 //!   alloc record --seed S --n N --len L --profile c12|c13|c14 --out F   impl -> spec (random histories)
 //!   alloc sweep  --mode quick|full --out F                              impl -> spec (exhaustive short byte
 //!                                                                       strings + boundary integers)
+//!   alloc scen   --seed S --out F                                       impl -> spec (deterministic scenarios: GC
+//!                                                                       pattern x kept-value kind; every call at
+//!                                                                       distance 0..3 from each cap)
 //!
 //! A call is a JSON object {"op": name, args..}; nodes are named by HANDLE = 1-based position in the
 //! table of returned NodePtrs (handles 1, 2 = nil(), one()); checkpoints by position in the stack of
@@ -298,6 +301,17 @@ fn projection(s: &Sess) -> Value {
     json!({"ev": "proj", "op": "proj", "nodes": nodes})
 }
 
+/// write the projection; a panic while reading (possible only when the code under test is broken) ends the history
+fn emit_proj(out: &mut Out, s: &Sess) -> bool {
+    match catch(|| projection(s)) {
+        Ok(p) => {
+            out.emit(&p);
+            true
+        }
+        Err(_) => false,
+    }
+}
+
 fn merge(op: &Value, obs: &Value) -> Value {
     let mut ev = op.clone();
     ev["ev"] = op["op"].clone();
@@ -548,7 +562,8 @@ fn emit_eq(out: &mut Out, s: &Sess, x: usize, y: usize) {
 fn step(out: &mut Out, s: &mut Sess, op: &Value) -> bool {
     let obs = exec(s, op);
     let ev = merge(op, &obs);
-    let bad = obs["st"] == "panic" || obs.get("rb_panic").is_some();
+    // a maybe_restore that fails may already have restored: the harness cannot know which handles survive
+    let bad = obs["st"] == "panic" || obs.get("rb_panic").is_some() || (op["op"] == "maybe_restore" && obs["st"] != "ok");
     out.emit(&ev);
     // a heap beyond its limit is possible only through the known finding F5; what follows it
     // (e.g. maybe_restore's clone running out of memory half-way) is not a separate defect
@@ -647,12 +662,12 @@ fn record(args: &[String], out: &mut Out) {
                 let y = *r.pick(&at);
                 emit_eq(out, &s, x, y);
             }
-            if i % 40 == 0 {
-                out.emit(&projection(&s));
+            if i % 40 == 0 && !emit_proj(out, &s) {
+                break;
             }
         }
         if alive {
-            out.emit(&projection(&s));
+            if !emit_proj(out, &s) { continue; }
         }
     }
 }
@@ -721,7 +736,7 @@ fn sweep(args: &[String], out: &mut Out) {
                 emit_eq(out, &s, k - 1, k + 1);
             }
         }
-        out.emit(&projection(&s));
+        if !emit_proj(out, &s) { continue; }
     }
     // integers
     let mut vals: Vec<i128> = (-3..=3).collect();
@@ -771,7 +786,164 @@ fn sweep(args: &[String], out: &mut Out) {
             }
             let _ = ops_per;
         }
-        out.emit(&projection(&s));
+        if !emit_proj(out, &s) { continue; }
+    }
+}
+
+// ---------------------------------------------------------------------------
+// deterministic scenarios (impl -> spec): the interpreter's GC pattern with every kind of kept value, and
+// every allocating call at distance 0..3 from each cap
+
+fn run_script(out: &mut Out, s: &mut Sess, ops: &[Value]) -> bool {
+    for op in ops {
+        if !step(out, s, op) {
+            return false;
+        }
+    }
+    true
+}
+
+fn scen(args: &[String], out: &mut Out) {
+    let mut r = Rng::new(arg_u64(args, "--seed", 1) ^ 0x5ce9);
+    let atom = |b: &[u8]| json!({"op": "new_atom", "b": bytes_json(b)});
+    // ---- GC pattern: [outer full checkpoint] prelude, transparent checkpoint, kept value, garbage, maybe_restore
+    for kept in 0..16usize {
+        for garbage in 0..4usize {
+            for outer in 0..2usize {
+                if outer == 1 && garbage >= 1 && garbage <= 2 {
+                    continue; // the long garbage variants once
+                }
+                let hl: u64 = if (kept + garbage) % 3 == 0 { 6000 } else { u32::MAX as u64 };
+                let mut s = Sess::new(hl);
+                emit_new(out, &s);
+                let old = r.bytes(20 + (kept % 5));
+                let mut pre = vec![atom(&old), atom(&[0x61, 0x80]), json!({"op": "new_pair", "f": 3, "r": 4})];
+                if outer == 1 {
+                    pre.insert(1, json!({"op": "checkpoint"}));
+                }
+                // handles: 3 = old heap atom, 4 = old inline atom, 5 = old pair
+                if !run_script(out, &mut s, &pre) {
+                    continue;
+                }
+                let ol = old.len();
+                let mut ops: Vec<Value> = vec![json!({"op": "tcheckpoint"})];
+                let mut keep: usize = 0; // 0 = the last created node
+                match kept {
+                    0 => keep = 3,
+                    1 => keep = 4,
+                    2 => keep = 5,
+                    3 => ops.push(json!({"op": "new_substr", "n": 3, "s": 2, "e": ol - 3})),
+                    4 => ops.push(json!({"op": "new_substr", "n": 3, "s": 0, "e": ol})),
+                    5 => ops.push(json!({"op": "new_substr", "n": 3, "s": ol, "e": ol})),
+                    6 => ops.push(json!({"op": "new_substr", "n": 3, "s": 0, "e": 0})),
+                    7 => ops.push(atom(&[7])),
+                    8 => ops.push(atom(&r.bytes(48))),
+                    9 => ops.push(atom(&r.bytes(49))),
+                    10 => ops.push(atom(&[0x81, 2, 3, 4, 5])),
+                    11 => ops.push(json!({"op": "new_pair", "f": 3, "r": 4})),
+                    12 => {
+                        ops.push(atom(&r.bytes(30)));
+                        ops.push(json!({"op": "new_substr", "n": 6, "s": 3, "e": 17}));
+                    }
+                    13 => ops.push(json!({"op": "new_concat", "size": ol + 2, "ns": [3, 4]})),
+                    14 => {
+                        ops.push(json!({"op": "new_substr", "n": 3, "s": 1, "e": ol - 1}));
+                        ops.push(json!({"op": "new_substr", "n": 6, "s": 1, "e": 9}));
+                    }
+                    _ => ops.push(json!({"op": "new_substr", "n": 4, "s": 0, "e": 1})), // inline result of an inline atom
+                }
+                if !run_script(out, &mut s, &ops) {
+                    continue;
+                }
+                if keep == 0 {
+                    keep = s.h.len();
+                }
+                let mut g: Vec<Value> = Vec::new();
+                match garbage {
+                    0 => g.push(atom(&vec![0x55; 1024 + (kept * 7) % 90])),
+                    1 => {
+                        for _ in 0..130 {
+                            g.push(json!({"op": "new_pair", "f": 3, "r": 4}));
+                        }
+                    }
+                    2 => {
+                        for i in 0..124u32 {
+                            g.push(atom(&[0x80, (i & 0xff) as u8]));
+                        }
+                    }
+                    _ => g.push(atom(&vec![0x55; 900])), // not enough to be worth a restore
+                }
+                if !run_script(out, &mut s, &g) {
+                    continue;
+                }
+                let cp = s.cps.len();
+                if !step(out, &mut s, &json!({"op": "maybe_restore", "cp": cp, "n": keep})) {
+                    continue;
+                }
+                if !emit_proj(out, &s) { continue; }
+                // the allocator goes on being used; the checkpoint can be used again
+                let at = s.live_atoms();
+                let last = *at.last().unwrap();
+                let mut more = vec![atom(&r.bytes(6)), json!({"op": "new_pair", "f": last, "r": 3})];
+                if kept % 2 == 0 {
+                    more.push(atom(&vec![0x66; 1100]));
+                    more.push(json!({"op": "maybe_restore", "cp": cp, "n": last}));
+                }
+                if !run_script(out, &mut s, &more) {
+                    continue;
+                }
+                emit_eq(out, &s, *s.live_atoms().last().unwrap(), 3);
+                if outer == 1 {
+                    if !step(out, &mut s, &json!({"op": "restore", "cp": 1})) {
+                        continue;
+                    }
+                }
+                if !emit_proj(out, &s) { continue; }
+            }
+        }
+    }
+    // ---- every allocating call at distance d = 0..3 from the heap limit / the atom cap / the pair cap
+    let calls: Vec<Value> = vec![
+        atom(&[]), atom(&[0x80]), atom(&[0x61, 0x80]), atom(&[0x81, 2, 3]), atom(&[1, 2, 3, 4]),
+        json!({"op": "new_small_number", "v": 0}), json!({"op": "new_small_number", "v": 200}),
+        z_json("new_number", true, &[1]), z_json("new_u64", false, &[0, 1]), z_json("new_i64", true, &[0, 1]),
+        z_json("new_malachite_number", false, &[0, 0, 0, 4]),
+        json!({"op": "new_concat", "size": 0, "ns": []}), json!({"op": "new_concat", "size": 1, "ns": []}),
+        json!({"op": "new_concat", "size": 0, "ns": [1]}), json!({"op": "new_concat", "size": 1, "ns": [2]}),
+        json!({"op": "new_concat", "size": 2, "ns": [3]}), json!({"op": "new_concat", "size": 3, "ns": [4]}),
+        json!({"op": "new_concat", "size": 3, "ns": [3]}),
+        json!({"op": "new_concat", "size": 3, "ns": [2, 3]}), json!({"op": "new_concat", "size": 5, "ns": [3, 4]}),
+        json!({"op": "new_concat", "size": 6, "ns": [2, 3, 4]}), json!({"op": "new_concat", "size": 0, "ns": [1, 1]}),
+        json!({"op": "new_substr", "n": 3, "s": 0, "e": 1}), json!({"op": "new_substr", "n": 3, "s": 1, "e": 2}),
+        json!({"op": "new_substr", "n": 4, "s": 1, "e": 3}), json!({"op": "new_substr", "n": 4, "s": 0, "e": 0}),
+        json!({"op": "new_pair", "f": 3, "r": 4}),
+        json!({"op": "add_ghost_atom", "amt": 0}), json!({"op": "add_ghost_atom", "amt": 1}), json!({"op": "add_ghost_atom", "amt": 2}),
+        json!({"op": "add_ghost_pair", "amt": 0}), json!({"op": "add_ghost_pair", "amt": 1}), json!({"op": "add_ghost_pair", "amt": 3}),
+    ];
+    for cap in 0..3usize {
+        for d in 0..4u64 {
+            for call in &calls {
+                // prelude: 3 = inline 2-byte atom 0x6180, 4 = heap 3-byte atom; heap = 1 + 2 + 3 = 6, atoms = 4
+                let hl = if cap == 0 { 6 + d } else { u32::MAX as u64 };
+                let mut s = Sess::new(hl);
+                emit_new(out, &s);
+                let mut pre = vec![atom(&[0x61, 0x80]), atom(&[0x81, 2, 3])];
+                if cap == 1 {
+                    pre.push(json!({"op": "add_ghost_atom", "amt": REAL_MAX - 4 - d}));
+                }
+                if cap == 2 {
+                    pre.push(json!({"op": "add_ghost_pair", "amt": REAL_MAX - d}));
+                }
+                if !run_script(out, &mut s, &pre) {
+                    continue;
+                }
+                // the call, twice (the second one meets the state the first one left), then a read-back
+                if !run_script(out, &mut s, &[call.clone(), call.clone()]) {
+                    continue;
+                }
+                if !emit_proj(out, &s) { continue; }
+            }
+        }
     }
 }
 
@@ -898,6 +1070,7 @@ fn main() {
         "replay" => replay(&args, &mut out),
         "record" => record(&args, &mut out),
         "sweep" => sweep(&args, &mut out),
+        "scen" => scen(&args, &mut out),
         _ => {
             eprintln!("usage: alloc replay|record|sweep ...");
             std::process::exit(2);
